@@ -1219,36 +1219,73 @@ def judge_multipsk(ctx, table, label, spec):
         ctx.violation(key, text, detail)
 
 
-def entry_phase(ctx, table):
-    """other entry points (SRP, anonymous), key-size limits at the exact parameter sizes, several PSKs"""
-    from . import c19_entry as E
-    otable = E.other_table()
-    for (kind, c, s, cred, alpn, dhb) in E.cert_boundary_pairs():
-        judge_pair(ctx, table, kind, c, s, cred, alpn, dhb)
-    for label, spec in E.entry_pairs(ctx.rng, ctx.pick(150, 3000)):
-        judge_entry(ctx, otable, label, spec)
-    for label, spec in E.multipsk_pairs(ctx.rng, ctx.pick(150, 3000)):
-        judge_multipsk(ctx, table, label, spec)
+class Budget(object):
+    """wall-clock budget for the RANDOM bulk only (AGENT_GUIDE "Load independence"): directed families never
+    consult it; a random stream that runs out is cut and recorded"""
+
+    def __init__(self, ctx, seconds):
+        self.ctx, self.deadline = ctx, seconds
+
+    def spent(self, stream):
+        if self.ctx.elapsed() > self.deadline:
+            self.ctx.count("cut-by-budget:" + stream)
+            return True
+        return False
 
 
-def pairs_phase(ctx):
-    """second half of C19: compatible validated settings connect (live lab, real environment)"""
-    from . import c19_pairs as P
-    from . import c19_use as U
+def _count(gen):
+    return sum(1 for _ in gen)
+
+
+def pairs_directed(ctx):
+    """second half of C19, directed families (live lab, real environment): never cut by a budget"""
+    import random as _random
+    from . import c19_pairs as P, c19_use as U, c19_entry as E
     table = P.suite_table()
+    otable = E.other_table()
     ctx.extra["suite_table_size"] = len(table)
-    # re-use of one settings object across different handshakes (directed, never cut by a budget)
     for seq in U.reuse_sequences():
         judge_sequence(ctx, seq)
     for (kind, c, s, cred, alpn) in P.systematic_pairs():
         judge_pair(ctx, table, kind, c, s, cred, alpn)
+    for (kind, c, s, cred, alpn, dhb) in E.cert_boundary_pairs():
+        judge_pair(ctx, table, kind, c, s, cred, alpn, dhb)
+    dummy = _random.Random(0)
+    for label, spec in P.psk_pairs(dummy, 0):
+        judge_psk(ctx, table, label, spec)
+    for label, spec in E.entry_pairs(dummy, 0):
+        judge_entry(ctx, otable, label, spec)
+    for label, spec in E.multipsk_pairs(dummy, 0):
+        judge_multipsk(ctx, table, label, spec)
+
+
+def pairs_random(ctx, budget):
+    import itertools
+    import random as _random
+    from . import c19_pairs as P, c19_entry as E
+    table = P.suite_table()
+    otable = E.other_table()
+    dummy = _random.Random(0)
     for _ in range(ctx.pick(1500, 22000)):
+        if budget.spent("pairs:random"):
+            break
         kind, c, s, cred, alpn = P.gen_pair(ctx.rng)
         judge_pair(ctx, table, kind, c, s, cred, alpn)
-    # PSK / ticket dimension: shared external PSK or resumption ticket x share-at-once / HelloRetryRequest
-    for label, spec in P.psk_pairs(ctx.rng, ctx.pick(250, 5000)):
+    k = _count(P.psk_pairs(dummy, 0))
+    for label, spec in itertools.islice(P.psk_pairs(ctx.rng, ctx.pick(250, 5000)), k, None):
+        if budget.spent("pairs:psk-random"):
+            break
         judge_psk(ctx, table, label, spec)
-    entry_phase(ctx, table)
+    k = _count(E.entry_pairs(dummy, 0))
+    for label, spec in itertools.islice(E.entry_pairs(ctx.rng, ctx.pick(150, 3000)), k, None):
+        if budget.spent("pairs:entry-random"):
+            break
+        judge_entry(ctx, otable, label, spec)
+    k = _count(E.multipsk_pairs(dummy, 0))
+    for label, spec in itertools.islice(E.multipsk_pairs(ctx.rng, ctx.pick(150, 3000)), k, None):
+        if budget.spent("pairs:multipsk-random"):
+            break
+        judge_multipsk(ctx, table, label, spec)
 
 
 def run(ctx):
@@ -1268,7 +1305,11 @@ def run(ctx):
                 "in different orders and cipherNames of one PRF hash (with / without a server certificate); SRP (verifierDB, with / "
                 "without certificate) and anonymous (EC)DH entry points; minKeySize / maxKeySize exactly at, one below and one above "
                 "the size of the RSA / DSA key, RFC 7919 group, server dhParams and SRP group; expectation = "
-                "harness/props/c19_pairs.py:compatible, psk_expectation, c19_entry.py:entry_expectation, multipsk_expectation")
+                "harness/props/c19_pairs.py:compatible, psk_expectation, c19_entry.py:entry_expectation, multipsk_expectation. Purity "
+                "across use: every pair run watches the caller's settings objects and their validated copies; directed sequences run "
+                "several different handshakes (anonymous, SRP, certificate with each key kind, post-handshake authentication) with ONE "
+                "settings object and compare every step with fresh equal objects. Directed families run first and outside the budget; "
+                "only random streams can be cut (cut-by-budget:<stream>)")
     ctx.assumptions = ["copy.deepcopy + structural comparison sees every change of the receiver (opaque key/cert objects by type only)",
                        "patching cryptomath.m2cryptoLoaded / pycryptoLoaded / cipherfactory.tripleDESPresent and reloading "
                        "handshakesettings with patched availability flags is what another installation would look like",
@@ -1279,7 +1320,10 @@ def run(ctx):
                        "whose own key-size limits exclude an ffdhe share it offers are run but not judged",
                        "SRP and anonymous entry points speak TLS 1.2 and earlier only, whatever the client's settings enable",
                        "key-size limits are inclusive (documentation: parameters smaller than minKeySize / larger than maxKeySize "
-                       "are refused)"]
+                       "are refused)",
+                       "purity across use: Watch compares every attribute of the caller's settings object and of the validated copy "
+                       "(identity of mutable containers + deep value) before and after each handshake and the data exchange; the "
+                       "static counterpart (use_never_mutates_shared_lists) follows `settings`-named objects and local aliases only"]
     rn = Runner(ctx)
     envctl = rn.envctl
     try:
@@ -1294,55 +1338,25 @@ def run(ctx):
     lc = ctx.lean()
     if lc is not None:
         ctx.extra["pureOps_generated"] = lc.ask("pure")
-    try:
-        real = envctl.real
-        static_checks(ctx, rn, real)
-        # ---- second half of the property: pairs of validated settings in the live lab
-        pairs_phase(ctx)
-        # ---- (a)+(b) under the real installation
-        sweep(ctx, rn, real, "")
-        # ---- wrong types: observations only (purity still judged)
-        for f, raws in sorted(WRONG_TYPES.items()):
-            for r in raws:
-                rn.case("wrongtype:%s=%s" % (f, r), {f: {"raw": r}}, real, modelled=False)
-        # ---- (c) the quantifier proper
-        C = module_consts()
-        for _ in range(ctx.pick(1500, 20000)):
-            rn.case("restrict-reorder", restrict_reorder_spec(ctx.rng, C), real)
-        # ---- (d) random combinations
-        V = lattice_values(real, C)
-        for _ in range(ctx.pick(2500, 40000)):
-            rn.case("random", random_spec(ctx.rng, V), real)
-        rn.flush()
-        # ---- backend availability patched (flags read at call time)
-        combos = [(m2, py, td) for m2 in (False, True) for py in (False, True) for td in (False, True)]
+    budget = Budget(ctx, ctx.pick(125, 1100))
+    combos = [(m2, py, td) for m2 in (False, True) for py in (False, True) for td in (False, True)]
+    imp = [dict(mlKem=True, mlDsa=True, ecdsaAllCurves=True, brotliCompress=True, zstdCompress=True,
+                brotliDecompress=True, zstdDecompress=True),
+           dict(mlKem=False, mlDsa=False, ecdsaAllCurves=False, brotliCompress=False, zstdCompress=False,
+                brotliDecompress=False, zstdDecompress=False)]
+    if ctx.thorough():
+        for _ in range(6):
+            imp.append({k: ctx.rng.random() < 0.5 for k in imp[0]})
+
+    def backend_envs(real):
         for (m2, py, td) in combos:
             env = dict(real, m2crypto=m2, pycrypto=py, tripleDES=td)
-            if env == real:
-                continue
-            envctl.set_backends(m2, py, td)
-            tag = "env%d%d%d:" % (m2, py, td)
-            rn.case(tag + "default", {}, env)
-            for f in ("cipherImplementations", "cipherNames"):
-                for v in V[f]:
-                    rn.case(tag + "single:" + f, {f: copy.deepcopy(v)}, env)
-            for ci in V["cipherImplementations"]:
-                for cn in (["3des"], ["3des", "aes128"], ["aes128", "3des", "3des"], ["aes256gcm"]):
-                    rn.case(tag + "pair:impl-cipher", {"cipherImplementations": copy.deepcopy(ci), "cipherNames": cn}, env)
-            for _ in range(ctx.pick(150, 3000)):
-                rn.case(tag + "restrict-reorder", restrict_reorder_spec(ctx.rng, C), env)
-            for _ in range(ctx.pick(150, 3000)):
-                rn.case(tag + "random", random_spec(ctx.rng, V), env)
-            rn.flush()
+            if env != real:
+                envctl.set_backends(m2, py, td)
+                yield env, "env%d%d%d:" % (m2, py, td)
         envctl.set_backends(real["m2crypto"], real["pycrypto"], real["tripleDES"])
-        # ---- import-time availability patched (module reloaded)
-        imp = [dict(mlKem=True, mlDsa=True, ecdsaAllCurves=True, brotliCompress=True, zstdCompress=True,
-                    brotliDecompress=True, zstdDecompress=True),
-               dict(mlKem=False, mlDsa=False, ecdsaAllCurves=False, brotliCompress=False, zstdCompress=False,
-                    brotliDecompress=False, zstdDecompress=False)]
-        if ctx.thorough():
-            for _ in range(6):
-                imp.append({k: ctx.rng.random() < 0.5 for k in imp[0]})
+
+    def import_envs(real):
         for flags in imp:
             env = dict(real, **flags)
             if env == real:
@@ -1351,18 +1365,69 @@ def run(ctx):
             if envctl.read() != env:
                 ctx.count("env-patch-failed")
                 continue
-            tag = "imp%s:" % env_bits(env)[3:]
+            yield env, "imp%s:" % env_bits(env)[3:]
+        envctl.restore()
+
+    try:
+        real = envctl.real
+        # ================= directed families: always run, in this order, outside any budget =================
+        static_checks(ctx, rn, real)
+        # (a)+(b) every listed value of every field and the interacting pairs, real installation
+        sweep(ctx, rn, real, "")
+        # wrong types: observations only (purity still judged)
+        for f, raws in sorted(WRONG_TYPES.items()):
+            for r in raws:
+                rn.case("wrongtype:%s=%s" % (f, r), {f: {"raw": r}}, real, modelled=False)
+        rn.flush()
+        C = module_consts()
+        V = lattice_values(real, C)
+        # backend availability patched (flags read at call time)
+        for env, tag in backend_envs(real):
+            rn.case(tag + "default", {}, env)
+            for f in ("cipherImplementations", "cipherNames"):
+                for v in V[f]:
+                    rn.case(tag + "single:" + f, {f: copy.deepcopy(v)}, env)
+            for ci in V["cipherImplementations"]:
+                for cn in (["3des"], ["3des", "aes128"], ["aes128", "3des", "3des"], ["aes256gcm"]):
+                    rn.case(tag + "pair:impl-cipher", {"cipherImplementations": copy.deepcopy(ci), "cipherNames": cn}, env)
+            rn.flush()
+        # import-time availability patched (module reloaded)
+        for env, tag in import_envs(real):
             static_checks(ctx, rn, env)
-            C2 = module_consts()
-            V2 = lattice_values(env, C2)
+            V2 = lattice_values(env, module_consts())
             rn.case(tag + "default", {}, env)
             for f in ("eccCurves", "keyShares", "defaultCurve", "more_sig_schemes", "certificate_compression_send",
                       "certificate_compression_receive"):
                 for v in V2[f]:
                     rn.case(tag + "single:" + f, {f: copy.deepcopy(v)}, env)
+            rn.flush()
+        # second half of the property and purity across use: directed pairs / sequences in the live lab
+        pairs_directed(ctx)
+        # ================= random bulk: may be cut by the wall-clock budget (recorded) =================
+        for _ in range(ctx.pick(1500, 20000)):
+            if budget.spent("validate:restrict-reorder"):
+                break
+            rn.case("restrict-reorder", restrict_reorder_spec(ctx.rng, C), real)
+        for _ in range(ctx.pick(2500, 40000)):
+            if budget.spent("validate:random"):
+                break
+            rn.case("random", random_spec(ctx.rng, V), real)
+        rn.flush()
+        pairs_random(ctx, budget)
+        for env, tag in backend_envs(real):
+            for _ in range(ctx.pick(150, 3000)):
+                if budget.spent("validate:env-random"):
+                    break
+                rn.case(tag + "restrict-reorder", restrict_reorder_spec(ctx.rng, C), env)
+                rn.case(tag + "random", random_spec(ctx.rng, V), env)
+            rn.flush()
+        for env, tag in import_envs(real):
+            C2 = module_consts()
+            V2 = lattice_values(env, C2)
             for _ in range(ctx.pick(200, 3000)):
+                if budget.spent("validate:import-env-random"):
+                    break
                 rn.case(tag + "restrict-reorder", restrict_reorder_spec(ctx.rng, C2), env)
-            for _ in range(ctx.pick(200, 3000)):
                 rn.case(tag + "random", random_spec(ctx.rng, V2), env)
             rn.flush()
     finally:
